@@ -117,6 +117,59 @@ def cases_for(tier):
     return cases
 
 
+def after_failed_print():
+    """a print that RAISES (an int of more than sys.get_int_max_str_digits() digits cannot be converted to text by
+    CPython itself), then the same containers - repaired in place - printed again: the second text must evaluate
+    to the value like any other.  -> list of failure records"""
+    import sys
+    from prettyprinter import pformat
+    lim = sys.get_int_max_str_digits() if hasattr(sys, 'get_int_max_str_digits') else 0
+    if not lim:
+        return 0, []
+    huge = 10 ** (lim + 50)
+    bad = []
+    n = 0
+    shapes = [lambda x: [1, x], lambda x: {'k': [x]}, lambda x: ([[x], 2],), lambda x: [{'a': {1: x}}, [3]]]
+    for mk in shapes:
+        for cfg in (dict(), dict(width=5), dict(sort_dict_keys=True)):
+            v = mk(huge)
+            try:
+                first = pformat(v, **cfg)
+            except Exception as e:
+                first = 'EXC ' + type(e).__name__
+
+            def fix(o):
+                if isinstance(o, list):
+                    for i, x in enumerate(o):
+                        if x is huge:
+                            o[i] = 7
+                        else:
+                            fix(x)
+                elif isinstance(o, dict):
+                    for k in list(o):
+                        if o[k] is huge:
+                            o[k] = 7
+                        else:
+                            fix(o[k])
+                elif isinstance(o, tuple):
+                    for x in o:
+                        fix(x)
+            fix(v)
+            n += 1
+            for rep in range(2):
+                text, ws = PC.impl_pformat(v, cfg)
+                try:
+                    ok = not text.startswith('EXC ') and PC.strict_equal(PC.eval_text(text), expected(v, cfg.get('sort_dict_keys', False)))
+                except Exception:
+                    ok = False
+                if not ok:
+                    bad.append({'kind': 'after-failed-print', 'detail': 'after a print of the same containers that raised (%s), '
+                                'pformat gives a text that does not evaluate to the value' % first[:60],
+                                'value_after_repair': repr(v), 'cfg': cfg, 'impl': text[:300]})
+                    break
+    return n, bad
+
+
 def main(tier):
     run = Run(PROP, tier)
     built = run.build()
@@ -148,6 +201,11 @@ def main(tier):
                 if viol <= 3:
                     run.violation({'kind': 'oracle', 'detail': msg, 'term': PC.jsonable(c.term), 'cfg': c.cfg,
                                    'impl': c.text})
+        nfail, fails = after_failed_print()
+        run.count(nfail)
+        run.coverage['prints_after_a_failed_print'] = nfail
+        for f in fails[:3]:
+            run.violation(f)
         for c in cases[::7]:
             for k, n in valgen.vkinds(c.term).items():
                 kinds[k] = kinds.get(k, 0) + n
@@ -169,6 +227,10 @@ def main(tier):
 def replay(path):
     with open(path) as f:
         p = json.load(f)
+    if p.get('kind') == 'after-failed-print':
+        n, bad = after_failed_print()
+        print('prints after a failed print:', n, 'failures:', bad[:2])
+        return 1 if bad else 0
     if 'term' not in p:
         print(json.dumps(p, indent=1)[:3000])
         return 1
